@@ -51,7 +51,7 @@ SPEC_BUILTINS = {
     "suffixof", "contains", "strlen", "int_str", "str_to_int", "truthy", "py_eq", "py_str",
     "clsid", "clsof", "isinst", "uf", "exact_class", "qn_str", "qn_uri", "map_dom_eq",
     "const_set", "const_map_keys", "table_get", "table_has", "field_array", "is_other",
-    "seq_len", "seq_nth", "seq_empty", "seq_unit", "seq_concat", "flt_of_int", "same", "hash_str", "tbl", "canon_in", "vs_has", "vs_n", "vs_in", "vs_wf", "vs_first", "vs_rep", "ck", "qm_has", "qm_get", "qm_key", "pair", "hash_of", "vs_add", "vs_empty", "seq_has", "attr_set", "canon_set", "rkey", "rec_keys", "set_has", "os_has", "os_n", "os_rep", "entry",
+    "seq_len", "seq_nth", "seq_empty", "seq_unit", "seq_concat", "flt_of_int", "same", "hash_str", "tbl", "canon_in", "vs_has", "vs_n", "vs_in", "vs_wf", "vs_first", "vs_rep", "ck", "qm_has", "qm_get", "qm_key", "pair", "hash_of", "vs_add", "vs_empty", "seq_has", "attr_set", "canon_set", "rkey", "rec_keys", "set_has", "uri_in", "recs_with_id", "recs_of_class", "allocated", "table_key", "os_has", "os_n", "os_rep", "entry",
 }
 
 
@@ -589,6 +589,10 @@ class Exec(Sem):
 
     def contains(self, cont, x, st, node=None):
         S = self.cx.sorts
+        if isinstance(cont, PyV) and cont.kind == "dynattr":
+            o, attr, vals = cont.data
+            return OR(*[AND(self.cls_exact(o.t, cn), self.contains(self.const(enc), x, st, node))
+                        for cn, enc in sorted(vals.items())])
         if isinstance(cont, PyV):
             if cont.kind in ("tuple", "cset"):
                 return OR(*[self.py_eq(x, y, st) for y in cont.data])
@@ -617,6 +621,10 @@ class Exec(Sem):
             return "(select %s %s)" % (cont.t, self.key_term(x, et))
         if k == "seq":
             et = cont.ty.args[0]
+            if et == T.VAL:
+                # list membership is by ==
+                xv = self.box(x)
+                return "(exists ((i Int)) (and (<= 0 i) (< i (seq.len %s)) (py_eq (seq.nth %s i) %s)))" % (cont.t, cont.t, xv.t)
             xv = self.coerce(x, et, "in list")
             return "(seq.contains %s (seq.unit %s))" % (cont.t, xv.t)
         if k == "ref":
@@ -721,6 +729,13 @@ class Exec(Sem):
             return k(st, SV("(seq.nth %s %s)" % (o.t, idx), et))
         if ty.kind == "str":
             return k(st, SV("(str.at %s %s)" % (o.t, i.t), T.STR))
+        if ty.kind == "tuple":
+            try:
+                idx = int(i.t)
+            except ValueError:
+                raise Unsupported("symbolic index into a tuple", node)
+            name = S.sort(ty)
+            return k(st, SV("(%s_%d %s)" % (name, idx, o.t), ty.args[idx]))
         raise Unsupported("subscript of %r" % (ty,), node)
 
     def map_subscript(self, m, i, st, k, ctl, node):
@@ -756,7 +771,8 @@ class Exec(Sem):
 
         if (isinstance(e.func, ast.Attribute) and e.func.attr in MUTATORS and not st.spec):
             def got_recv(s, o):
-                if isinstance(o, SV) and o.ty.kind in ("map", "set", "seq", "vset", "qmap", "oset"):
+                if (isinstance(o, SV) and o.ty.kind in ("map", "set", "seq", "vset", "qmap", "oset")) or (
+                        isinstance(o, PyV) and o.kind == "tuple" and o.extra == "list" and e.func.attr in ("append", "extend")):
                     return self.ev_list(list(e.args), s,
                                         lambda s2, vs: self.bi.mutate(o, e.func.attr, vs, s2, e.func.value, k, ctl, e), ctl)
                 if isinstance(o, SV) and o.ty.kind == "ref":
@@ -837,6 +853,9 @@ class Exec(Sem):
                 return self.call_func(f.data, [f.extra] + list(args), kwargs, st, k, ctl, node)
             if kind == "class":
                 return self.construct(f.data, args, kwargs, st, k, ctl, node)
+            if kind == "classchoice":
+                from .calls import construct_choice
+                return construct_choice(self, f.data, args, kwargs, st, k, ctl, node)
             if kind == "specfn":
                 return self.call_specfn(f.data, args, kwargs, st, k, ctl, node)
             if kind == "specbuiltin":
@@ -1060,6 +1079,9 @@ class Exec(Sem):
 
     def assign(self, target, v, st, k, ctl):
         if isinstance(target, ast.Name):
+            if isinstance(v, SV) and len(v.t) > 400 and not st.spec and v.ty.kind not in ("none", "tuple"):
+                st, t = self.name_term(st, v.t, self.cx.sorts.sort(v.ty), "l_" + target.id)
+                v = SV(t, v.ty)
             return k(st.bind(target.id, v))
         if isinstance(target, (ast.Tuple, ast.List)):
             items = self.bi.unpack(v, len(target.elts), st, target)
